@@ -12,11 +12,22 @@ Lease64.tla  EXTENDS Lease (answer half) with the DNS64 dimension: V6Key = the A
     violate TTLShown.
   - spec->code: -simulate behaviours of Sim_Lease64.cfg replayed 1:1 by harness/c04 TestLeaseReplay on
     [real dns64, real cache, scripted downstream] with the timestamp shifter as the clock (harness/c04/d64_test.go).
+Failure dimension (gap C20-r3-2; Lease64.tla variable fail, actions Fail64 / HitFail, constant FailTTL): the cache's RFC 9520
+record of the AAAA question.  Fail64 = the downstream answers an eligible client's AAAA query with SERVFAIL (recorded;
+dns64 sees a FRESH failure), a later Hit64 inside the back-off is answered from the record and must be passed through on
+every route -- the wire-born one included, where dns64 materialises the request onto a detached context with a copied
+ResponseMeta before the cache marks its reply.
+  - TLC exhaustive: MC_Lease64_fail.cfg: the C04 properties + NeverOverCachedFailure, NoLookupOverCachedFailure,
+    CachedFailureAnswers hold; negative twin MC_Lease64_negfail.cfg (FailRule = "ignored": dns64 does not recognise the
+    cached failure) must violate NeverOverCachedFailure.  (C20 runs these two itself: run_fail_model.)
 Verdicts (predicates on the real replies against the driver's own lifetime oracle):
   FOCUS "" (C04, X04DS):  ServedLive / TTLShown / TTLMonotone on both pieces of every synthesised reply, and all of
                           the answer-half predicates on the other ops;
   FOCUS "c20" (C20):      TtlMin -- synthesised TTL <= every A TTL the internal lookup returned and <= the AAAA
-                          negative TTL (min of the admitted SOA MINIMUM and what the cached NODATA has left).
+                          negative TTL (min of the admitted SOA MINIMUM and what the cached NODATA has left);
+                          NeverOverFailure -- no AAAA synthesised over a cached failure (the driver's downstream
+                          failed the AAAA question less than FailTTL ago, nothing dropped the record, the question
+                          did not reach the downstream in this call, no NODATA entry is live).
 Model/code differences are drift.
 """
 import json
@@ -28,7 +39,9 @@ import c04_api
 MOD = "Lease"
 CHAIN = ["d4"]
 KEYS = {"v6Key": "d6", "v4Key": "d4"}
-SIM_D = ("SubQueryWriteD", "CacheWriteD", "PrefetchCompleteD", "NoAnswerD", "PurgeD")
+SIM_D = ("SubQueryWriteD", "CacheWriteD", "PrefetchCompleteD", "NoAnswerD", "PurgeD",
+         "HitMsgD", "HitWireD", "GetEntryD", "LeaseD", "PrefetchStartD", "TickAD")   # (the last six: plain action /\ FailStep)
+FAIL_TTL = 5          # Sim_Lease64.cfg / MC_Lease64_fail.cfg FailTTL: the cache's failure back-off in the replay
 
 
 def ensure_overlay(ctx):
@@ -50,6 +63,14 @@ def behaviours(ctx, num):
                 if lab.startswith(d + "("):
                     b[i] = (d[:-1] + lab[len(d):], st)
     bl = c04_api.answer_behaviours(behs, CHAIN, "d")
+    # Reply64 carries the outcome class of a DNS64 client query (drift accounting in the driver)
+    by_id = {"d%d" % bi: b for bi, b in enumerate(behs)}
+    for one in bl:
+        src = by_id[one["id"]]
+        for i, stp in enumerate(one["steps"]):
+            rep = src[i + 1][1]["reply"]
+            if rep.get("kind") == "reply" and rep.get("q") == "d64":
+                stp["exp"]["reply"].update({"over": rep["over"], "alook": rep["alook"], "synth": rep["synth"]})
     if len(bl) < num // 2:
         raise vf.MachineryError("only %d DNS64 behaviours generated" % len(bl))
     return bl
@@ -57,10 +78,23 @@ def behaviours(ctx, num):
 
 def driver_input(bl, focus):
     return dict({"chain": CHAIN, "negKey": KEYS["v6Key"], "scopedKey": "sc", "ecsCap": 3, "cutMax": 0,
-                 "behaviours": bl, "focus": focus}, **KEYS)
+                 "behaviours": bl, "focus": focus, "failTTL": FAIL_TTL}, **KEYS)
+
+
+def run_fail_model(ctx):
+    """The failure dimension on the model alone + its negative twin (run by C04 / X04DS and by C20, whose clause it is)."""
+    ctx.tlc(MOD, "MC_Lease64.tla", "MC_Lease64_fail.cfg", workers=4, timeout=600, heap="4g", tag="d64-fail")
+    if ctx.tier == "thorough":
+        ctx.tlc(MOD, "MC_Lease64.tla", "MC_Lease64_failfull.cfg", workers=6, timeout=1200, heap="8g", tag="d64-fail-full")
+    neg = ctx.tlc(MOD, "MC_Lease64.tla", "MC_Lease64_negfail.cfg", workers=4, timeout=600, heap="4g",
+                  must_pass=False, count=False, tag="d64 negative twin: cached failure not recognised (must violate NeverOverCachedFailure)")
+    if neg.violated != "NeverOverCachedFailure":
+        raise vf.MachineryError("negative twin MC_Lease64_negfail.cfg did not violate NeverOverCachedFailure (violated=%s rc=%s): "
+                                "the invariant is vacuous on the failure dimension" % (neg.violated, neg.rc))
 
 
 def model_check(ctx):
+    run_fail_model(ctx)
     ctx.tlc(MOD, "MC_Lease64.tla", "MC_Lease64_quick.cfg", workers=4, timeout=600, heap="4g", tag="d64-quick")
     if ctx.tier == "thorough":
         # SOA MINIMUM below the SOA TTL / below the floor, two leases per request, three routes
@@ -83,7 +117,11 @@ def replay(ctx, focus, num):
     # and the no-answer shapes, and the plain routes on the same entries
     need = {"steps": 8 * len(bl), "d64_synth": 40, "d64_synth_aged_nodata": 15, "d64_relayed": 5, "d64_unanswered": 5,
             "op_Hit64_msg": 5, "op_Hit64_msgw": 5, "op_Hit64_wire": 5, "op_TickA": 50, "op_CacheWrite": 20,
-            "served_via_msg": 5, "served_via_wire": 5}
+            "served_via_msg": 5, "served_via_wire": 5,
+            # failure dimension: records made, cached failures passed through on every route (the wire-born one is
+            # where the request context is detached), synthesis over a FRESH failure, the ordinary client's hits
+            "op_Fail64": 20, "d64_synth_over_fresh": 5, "d64_cachedfail_pass_msg": 3, "d64_cachedfail_pass_msgw": 3,
+            "d64_cachedfail_pass_wire": 3, "op_HitFail": 5}
     for k, n in need.items():
         if cnt.get(k, 0) < n:
             raise vf.MachineryError("vacuous DNS64 replay: %s = %s (< %d); counters %s" % (k, cnt.get(k, 0), n, cnt))
@@ -122,9 +160,14 @@ def run_tier(ctx, focus="", model=True):
         "X04DS: the scripted downstream does not answer while a DNS64 client query is in flight (entries are admitted by "
         "the other actions), so a synthesised reply is built from the entries stored when the call started",
         "X04DS: the AAAA negative TTL of a cached NODATA is min(SOA MINIMUM as admitted, time the entry has left)",
+        "X04DS: the cache's failure back-off is pinned (failure_cache_min_ttl = failure_cache_max_ttl = %d s); a reply counts "
+        "as a cached failure only when the driver itself failed the AAAA question inside that window, nothing dropped the "
+        "record, no NODATA entry is live and the question did not reach the downstream again" % FAIL_TTL,
     ]
     if model:
         model_check(ctx)
+    elif focus == "c20":
+        run_fail_model(ctx)           # C20's own clause: never over a cached failure
     return replay(ctx, focus, 4000 if thorough else 700)
 
 
